@@ -29,6 +29,7 @@ func checkC01(c *Ctx) {
 
 	c.Rule("C01/R11", "what the writer may emit as a key line the reader takes as one: nothing the reader's key recogniser tests before decoding the first character rejects a line beginning with a lower-case letter (same rule as C02/R12)")
 	c.Rule("C01/R15", "records of several inputs written through one writer read back once each (same rule as C02/R4): the reader is reset, not replaced, between inputs — its unit-metadata table survives, so repeated metadata is recognised")
+	c.Rule("C01/R17", "every record handed to the writer is written: the function Write passes a unit-metadata record to writes into the buffer on every path (no table of what was 'already written' decides otherwise)")
 	c.Rule("C01/R16", "every float the writer prints is read back by the full parser when the integer fast path does not apply (same rule as C03/R2): the fast path accepts digits only and otherwise hands the whole text on — NaN included")
 	c.Rule("C01/R14", "infinities and NaN read back as written (same rule as C03/R8): the recogniser of the special spellings accepts the writer's +Inf, -Inf and NaN and maps each to the value of that sign")
 	c.Rule("C01/R13", "the filter command forwards every kind of record the writer can write: for each kind in Writer.Write's type switch (the syntax error apart) a path leads from the fetch to Writer.Write that agrees with the command's own type tests for that kind")
@@ -46,6 +47,7 @@ func checkC01(c *Ctx) {
 	c.Under("C03/R8", "C01/R14", func() { c03Special(c, p) })
 	c.Under("C02/R4", "C01/R15", func() { c02Reset(c, p) })
 	c03FastFloat(c, p, "C01/R16")
+	c01EveryRecordWritten(c, p)
 }
 
 func c01Owns(c *Ctx, p *Prog) {
